@@ -509,4 +509,42 @@ theorem reorder_leaves {n : Nat} {D : Dendro α} (hv : ValidDendro n D = true) (
 
 end sameTree
 
+
+section core
+variable {α : Type} [LinearOrder α]
+
+/-- the statement of `SkNet.C07.reorder_valid`, also used by C08 (cut_straight reorders when asked for the
+    reduced dendrogram) -/
+theorem reorder_valid_core {n : Nat} {D : Dendro α} (hv : ValidDendro n D = true) (hm : MonoPaths n D = true) :
+    ∃ D', reorderDendrogram D = .ok D' ∧ ValidDendro n D' = true ∧ heightsSorted D' = true ∧
+      (∀ x, x < n + D.length → leaves n D' (indexNewOf D x) = leaves n D x) ∧
+      (∀ t r, D[t]? = some r → ∃ r', D'[posOf (lexsortIdx D) t]? = some r' ∧ r'.h = r.h ∧ r'.s = r.s) := by
+  have hlen := valid_length hv
+  have hs := static_of_valid (w := List.replicate n 1) hv
+  have hn : (List.replicate n 1).length = n := by simp
+  refine ⟨(lexsortIdx D).filterMap fun t => (D[t]?).map (renameRow D), ?_,
+    valid_of_static (reorder_static hs (monoRows_of_monoPaths hm)), reorder_sorted D,
+    reorder_leaves hv hm, ?_⟩
+  · -- the index check of numpy passes: every child is a node of the tree
+    unfold reorderDendrogram
+    simp only
+    have hall : (D.all fun r => decide (r.i < 2 * (D.length + 1) - 1) && decide (r.j < 2 * (D.length + 1) - 1)) = true := by
+      rw [List.all_eq_true]
+      intro r hr
+      obtain ⟨t, ht, hrt⟩ := List.getElem_of_mem hr
+      have hb := hs.bound t r (by rw [List.getElem?_eq_getElem ht, hrt])
+      rw [hn] at hb
+      simp only [Bool.and_eq_true, decide_eq_true_eq]
+      omega
+    rw [if_pos hall]
+    rfl
+  · intro t r hr
+    have ht : t < D.length := (List.getElem?_eq_some_iff.mp hr).1
+    obtain ⟨rc, hrc, hg⟩ := reorder_get (idxOf_getElem (mem_lexsortIdx.mpr ht))
+    rw [hr] at hrc
+    cases hrc
+    exact ⟨_, hg, rfl, rfl⟩
+
+end core
+
 end SkNet.Dendro
